@@ -13,7 +13,7 @@ import numpy as np
 
 import symx
 from .. import sym as S
-from .. import lib
+from .. import lib, npx
 from ..lib import F
 from ..runner import Unit
 from .common import mk_utpm, x0_for, x0_for_complex, data_of
@@ -256,6 +256,29 @@ def h_kink(ctx, fname, D, P, n):
                 ctx.eq(Z[d, p, i], ref, '%s[%d,%d,%d]' % (fname, d, p, i))
 
 
+def h_int_typed(ctx, fname):
+    """coefficient array of integer dtype (a real-valued polynomial whose coefficients happen to be
+    whole numbers, e.g. UTPM(numpy.array([[[1, 2]], [[3, 4]], [[5, 6]]]))): same result as for the
+    float array with the same values"""
+    algopy = symx.load_algopy()
+    vals = [[[1, 2]], [[3, 4]], [[5, 6]]]
+    if ctx.mode == 'sym':
+        # the data are concrete whole numbers and the effect is one of storage dtype: nothing is
+        # symbolic here; the unit is decided by the run on the float build (translation validation)
+        ctx.fact(True, 'concrete integer-typed data: decided on the float build')
+        ctx.eq(S.const(0), S.const(0), '%s(integer-typed) == %s(float-typed)' % (fname, fname))
+        return
+    xi = algopy.UTPM(np.array(vals, dtype=int))
+    xf = algopy.UTPM(np.array(vals, dtype=float))
+    try:
+        yi = call_function(algopy, fname, xi, 'algopy', {})
+    except Exception as e:
+        ctx.fact(False, '%s of an integer-typed coefficient array raised %s: %s' % (fname, type(e).__name__, str(e)[:80]))
+        return
+    yf = call_function(algopy, fname, xf, 'algopy', {})
+    ctx.eq(data_of(ctx, algopy, yi), data_of(ctx, algopy, yf), '%s(integer-typed) == %s(float-typed)' % (fname, fname))
+
+
 # ---------------------------------------------------------------------------
 
 def units(tier, seed):
@@ -275,6 +298,8 @@ def units(tier, seed):
         for (D, P, shape) in cfgs:
             add('%s/D%d,P%d,%s' % (fname, D, P, shape), 'h_unary', fname=fname, D=D, P=P, shape=shape)
     # non-contiguous operands (transposed views) and recomputation after in-place updates
+    for fname in fnames:
+        add('%s/size-1 axes/D3,P2,(1, 2, 1)' % fname, 'h_unary', fname=fname, D=3, P=2, shape=(1, 2, 1))
     for fname in fnames:
         add('%s/transposed view/D3,P2,(2, 3)' % fname, 'h_unary', fname=fname, D=3, P=2, shape=(2, 3), layout='T')
     for fname in ['exp', 'log', 'sqrt', 'sin', 'cos', 'tan', 'sinh', 'tanh', 'erf', 'expit', 'gammaln', 'reciprocal', 'square', 'arctan']:
@@ -306,6 +331,8 @@ def units(tier, seed):
     add('pow_real(symbolic r)/D%d,P2' % powD, 'h_unary', fname='powr', D=powD, P=2, shape=(2,))
     add('rpow(symbolic c)/D%d,P2' % powD, 'h_unary', fname='rpow', D=powD, P=2, shape=(2,))
     add('pow_utpm/D%d,P2' % min(powD, 5), 'h_pow_utpm', D=min(powD, 5), P=2)
+    for fname in ['exp', 'sin', 'sqrt', 'reciprocal', 'square', 'tanh', 'erf', 'log']:
+        add('integer-typed coefficient array/%s' % fname, 'h_int_typed', fname=fname)
     kD = 3 if tier == 'quick' else 4
     for fname in ['absolute', 'abs', 'sign', 'minimum', 'maximum', 'clip']:
         add('%s/D%d,P1,n2' % (fname, kD), 'h_kink', fname=fname, D=kD, P=1, n=2)
